@@ -8,6 +8,7 @@ import hashlib
 import json
 import os
 import random
+import signal
 import subprocess
 import sys
 import tempfile
@@ -271,9 +272,10 @@ def fanout(prop, shards, timeout, env=None, nproc=None):
         while pending and len(running) < nproc:
             i, sh = pending.pop(0)
             fo, fe = tempfile.TemporaryFile(), tempfile.TemporaryFile()
+            hb = tempfile.NamedTemporaryFile(prefix="gunicorn-verif-hb-", dir=os.environ.get("VERIF_SCRATCH", "/var/tmp"))
             p = subprocess.Popen([PY, vcheck, prop, "--shard", json.dumps(sh)],
-                                 stdout=fo, stderr=fe, env=e, cwd=VERIF)
-            running.append((i, sh, p, (fo, fe)))
+                                 stdout=fo, stderr=fe, env=dict(e, VERIF_SHARD_HB=hb.name), cwd=VERIF)
+            running.append((i, sh, p, (fo, fe, hb)))
         still = []
         for i, sh, p, files in running:
             if p.poll() is None:
@@ -281,16 +283,32 @@ def fanout(prop, shards, timeout, env=None, nproc=None):
                     p.kill()
                     p.wait()
                     results[i] = (sh, None, "shard watchdog expired")
-                    files[0].close()
-                    files[1].close()
+                    for f in files:
+                        f.close()
                 else:
                     still.append((i, sh, p, files))
                 continue
             files[0].seek(0)
             files[1].seek(0)
             out, err = files[0].read(), files[1].read()
-            files[0].close()
-            files[1].close()
+            stalled = None
+            if p.returncode == -signal.SIGVTALRM:
+                try:
+                    with open(files[2].name) as f:
+                        stalled = json.load(f)
+                except Exception:
+                    stalled = None
+            for f in files:
+                f.close()
+            if stalled is not None:
+                # cpu_guard(): one case used up its CPU-time budget (never a wall-clock verdict) - the kernel ended the
+                # shard; the case it had announced is the witness
+                results[i] = (sh, {"evaluations": 1, "distinct": [], "reach": {}, "samples": [], "known_hits": {}, "info": {},
+                                   "inconclusive": [],
+                                   "violations": [[stalled["mechanism"], "one case consumed more than %d s of CPU time without "
+                                                   "returning (the shard process was ended by its CPU-time timer)"
+                                                   % stalled["budget"], stalled["case"]]]}, err.decode()[-2000:])
+                continue
             try:
                 line = out.decode().strip().splitlines()[-1]
                 results[i] = (sh, json.loads(line), err.decode()[-2000:])
@@ -311,10 +329,50 @@ def run_sharded(run, shards, timeout, env=None, nproc=None):
             run.merge(res)
 
 
+CPU_STALL = "one-input-keeps-the-worker-computing-without-bound"
+
+
+def cpu_guard(case, budget=120, mechanism=CPU_STALL):
+    """Announce the case about to run and give it `budget` seconds of *CPU time* of this process (ITIMER_VIRTUAL, default
+    action: the kernel ends the process - a handler could not run while C code such as the regex engine holds the GIL).
+    The parent (fanout) turns that death into a violation whose witness is the announced case. Cases cost milliseconds of CPU
+    on a tree that holds the property; sleeping and waiting for I/O do not count, so machine load cannot fire this."""
+    hb = os.environ.get("VERIF_SHARD_HB")
+    if not hb:
+        return
+    with open(hb, "w") as f:
+        json.dump({"mechanism": mechanism, "budget": budget, "case": case}, f, default=jsonable)
+    signal.setitimer(signal.ITIMER_VIRTUAL, budget)
+
+
+def cpu_guard_off():
+    signal.setitimer(signal.ITIMER_VIRTUAL, 0)
+
+
+def replay_cpu_guarded(fn, path, prop, budget=120):
+    """Replay of a CPU_STALL witness: run fn(path) in a child with the same CPU-time budget."""
+    pid = os.fork()
+    if pid == 0:
+        signal.setitimer(signal.ITIMER_VIRTUAL, budget)
+        rc = 3
+        try:
+            rc = fn(path)
+        finally:
+            sys.stdout.flush()
+            os._exit(rc or 0)
+    _, st = os.waitpid(pid, 0)
+    if os.WIFSIGNALED(st) and os.WTERMSIG(st) == signal.SIGVTALRM:
+        print("VIOLATION property=%s replay=%s\n  %s: the case used more than %d s of CPU time without returning" % (
+            prop, path, CPU_STALL, budget))
+        return 1
+    return os.WEXITSTATUS(st) if os.WIFEXITED(st) else 3
+
+
 def shard_main(fn, shard):
     """Called in the shard subprocess: fn(shard) -> Run; prints the export as one JSON line."""
     try:
         r = fn(shard)
+        cpu_guard_off()
         sys.stdout.write("\n" + json.dumps(r.export(), default=jsonable) + "\n")
         sys.stdout.flush()
         return 0
